@@ -1,0 +1,69 @@
+//go:build verif
+
+package eval
+
+// Read-only exports used by the verification harness in /verif (build tag: verif).
+// Nothing here is compiled into a normal build and nothing here modifies any state.
+
+// VerifNode is one node of the flat program, field by field.
+type VerifNode struct {
+	Type     string // NodeType.String(): constant, variable, operator, fast_operator, cond, event
+	ChildCnt int
+	ScIdx    int
+	OsTop    int
+	ScT      bool // scIfTrue
+	ScF      bool // scIfFalse
+	PAnd     bool // parent is and
+	POr      bool // parent is or
+	VarKey   int
+	Value    Value // node value; for event nodes the LoopEventData
+	Parent   int
+	Op       bool // operator func is non-nil
+}
+
+// VerifProg is the flat program of a compiled expression.
+type VerifProg struct {
+	MaxStack int
+	Nodes    []VerifNode
+}
+
+// VerifProgram exports the flat program of e (read-only copy of the scalar fields).
+func VerifProgram(e *Expr) VerifProg {
+	p := VerifProg{MaxStack: int(e.maxStackSize)}
+	for i, n := range e.nodes {
+		p.Nodes = append(p.Nodes, VerifNode{
+			Type:     NodeType(n.flag & nodeTypeMask).String(),
+			ChildCnt: int(n.childCnt),
+			ScIdx:    int(n.scIdx),
+			OsTop:    int(n.osTop),
+			ScT:      n.flag&scIfTrue == scIfTrue,
+			ScF:      n.flag&scIfFalse == scIfFalse,
+			PAnd:     n.flag&parentOpMask == andOp,
+			POr:      n.flag&parentOpMask == orOp,
+			VarKey:   int(n.varKey),
+			Value:    n.value,
+			Parent:   int(e.parentIdx[i]),
+			Op:       n.operator != nil,
+		})
+	}
+	return p
+}
+
+// VerifToken is one token as the lexer produced it.
+type VerifToken struct {
+	Type string
+	Val  string
+}
+
+// VerifLex runs the real lexer on src under a copy of conf and returns its tokens.
+func VerifLex(conf *Config, src string) ([]VerifToken, error) {
+	p := newParser(conf, src)
+	if err := p.lex(); err != nil {
+		return nil, err
+	}
+	res := make([]VerifToken, 0, len(p.tokens))
+	for _, t := range p.tokens {
+		res = append(res, VerifToken{Type: string(t.typ), Val: t.val})
+	}
+	return res, nil
+}
